@@ -70,6 +70,34 @@ R = {
  'R13-find_id_loc-while-to-for': (['C11'], lambda: None),
  'R14-names_at-bisect-right': (['C03','C13'], lambda: sub('supp/scope.py', "        idx = bisect(self._names, Location(loc))\n", "        probe = Location(loc)\n        idx = bisect(self._names, probe)\n")),
  'R15-read_except-temp': (['C14'], lambda: None),
+ 'R23-add_name-insort': (['C01','C05','C03'], lambda: sub('supp/scope.py', "            insert_loc(self._names, name)", "            from bisect import insort\n            insort(self._names, name)")),
+ 'R24-call-rename-local': (['C16','C15'], lambda: region('supp/remote.py','    def _call(self, name','    def lint(self', word('result','answer'))),
+ 'R25-get_path-copies': (['C07'], lambda: sub('supp/project.py', "        return  self.sources + sys.path", "        path = list(self.sources)\n        path.extend(sys.path)\n        return path")),
+ 'R26-alias_loc-branches-swapped': (['C11','C10'], lambda: sub('supp/nast.py', """        if alias.asname:
+            return alias.end_lineno, alias.end_col_offset - len(name)  # type: ignore[return-value]
+        return alias.lineno, alias.col_offset
+""", """        if not alias.asname:
+            return alias.lineno, alias.col_offset
+        last_line, end_col = alias.end_lineno, alias.end_col_offset
+        return last_line, end_col - len(name)
+""")),
+ 'R27-list_packages-dirs-first': (['C07','C12'], lambda: sub('supp/project.py', """        modules = set()
+        path = self.get_path()
+
+        if root:
+            droot = root + '.'""", """        path = self.get_path()
+        modules = set()
+
+        if root:
+            droot = '%s.' % root""")),
+ 'R28-server-requests-frozenset': (['C15'], lambda: sub('supp/server.py', "    requests = ('configure', 'assist', 'location', 'lint', 'eval')", "    requests = frozenset(['configure', 'assist', 'location', 'lint', 'eval'])")),
+ 'R29-visit_Compare-early-return-flipped': (['C02','C03'], lambda: sub('supp/nast.py', """        if not self._binds(node.comparators[1:]):
+            self.generic_visit(node)
+            return
+        # `a < b < (x := 3)`""", """        later = node.comparators[1:]
+        if not self._binds(later):
+            return self.generic_visit(node)
+        # `a < b < (x := 3)`""")),
 }
 import tempfile
 for k in ('R21-pack_integer-reordered-equal-ranges', 'R13-find_id_loc-while-to-for', 'R15-read_except-temp', 'R8-lint-loop-variables'):
@@ -90,7 +118,7 @@ for name in names:
         except (AssertionError, ValueError) as e:
             print('%-40s SKIP: the code no longer has the text this refactoring rewrites' % name)
             continue
-        r = subprocess.run(['/venv/bin/python', '-m', 'pytest', '-q', '-p', 'no:cacheprovider'], capture_output=True, text=True)
+        r = subprocess.run(['/venv/bin/python', '-m', 'pytest', '-q', '-p', 'no:cacheprovider', '--timeout=120'], capture_output=True, text=True)
         suite = (r.stdout.strip().splitlines() or ['?'])[-1]
         subprocess.run(['pkill', '-f', os.path.join(D, 'supp', 'server.py')])
         if re.search(r'\d+ (failed|error)', suite):
